@@ -45,6 +45,11 @@ CHECKS = {
    text="Properties_C13.v: the 26 accessors return pairwise distinct rows, each spelled as documented and reserved; symbolic constants and linkages are defined, spelled and typed as documented; the tables are constexpr; every route from a spelling (string -> identifier -> as-type, linkage, label, decltype) yields the constant in every Lexicon state. The driver checks all of it on three Lexicon instances (two alive at once, one created after a destruction), including identity across instances.",
    note="Trusted: extractor tables; the Nullptr constant's own type is checked dynamically only.",
    ref="DESIGN.md §6 C13"),
+ "C07": dict(
+   technique="Coq proof by induction over declaration histories on a structural model of the scope (overload sets by name, entries by type, declaration sets), lookup tables refined by the C08/Unify results, comparator call sites re-read from the AST; seeded differential runs under ASan with an independent oracle computed from the history",
+   text="Scope.v proves for every history of (name,type) declarations: the scope lists them in entry order and its type is the product of their types; lookup finds a name iff it was declared; selection by type yields the first declaration with that name and type; each declaration's master is that first one and its decl-set is exactly the declarations sharing name and type, in entry order; homogeneous scopes report position = index. GenCmp shows that, in the current source, the overload table and the entry tables are searched with key comparators (the defect fixed in 12f6b4a is exactly a violation of that obligation). 550 (quick) / 8000 (thorough) histories are run on the real scopes and on the extracted model.",
+   note="Trusted: Coq kernel, extractor, extraction, scope_driver, ASan. Modelled: decl_factory farms and the intrusive chain as lists.",
+   ref="DESIGN.md §6 C07"),
 }
 
 NOT_YET = {}
